@@ -41,10 +41,10 @@ def Switches.fixed : Switches := {}
 def numDbs : Nat := 16
 
 /-- What a client sends: a command line, or a script invocation (EVAL / EVALSHA) performing the given
-    `redis.call`s in order and returning the last reply. -/
+    `redis.call`s / `redis.pcall`s (`pcalls`: one flag per call) in order and returning the last reply. -/
 inductive Req where
   | plain (args : List Bytes) (obs : Option (List Bytes))
-  | script (viaSha : Bool) (cmds : List (List Bytes))
+  | script (viaSha : Bool) (cmds : List (List Bytes)) (pcalls : List Bool := [])
   deriving Repr, DecidableEq
 
 inductive Path where
@@ -154,15 +154,19 @@ def scriptDb (w : Switches) (sel : Nat) (viaSha : Bool) : Nat :=
 def scriptCmdDb (w : Switches) (db : Nat) (cmd : List Bytes) : Nat :=
   if w.scriptDbCmdsDb0 && scriptDbCmds.contains (nameOf cmd) then 0 else db
 
-/-- run the calls in order; an error reply aborts the script (the effects so far stay) and becomes its reply -/
+/-- run the calls in order.  `redis.call`: an error reply aborts the script (the effects so far stay) and becomes its reply;
+    `redis.pcall` (the flags `pcs`, one per call, missing = `call`): the error is a value and the script goes on.  Both are handed
+    the SAME database (`create_lua_context` captures one `db_index` for the two closures). -/
 def runScript (w : Switches) (q : Quirks) (c sel : Nat) (sha : Bool) (now : Nat) :
-    State → List (List Bytes) → Frame → State × Frame
-  | st, [], last => (st, last)
-  | st, cmd :: rest, _ =>
-    if scriptRefused.contains (nameOf cmd) then (st, err) else
+    State → List (List Bytes) → List Bool → Frame → State × Frame
+  | st, [], _, last => (st, last)
+  | st, cmd :: rest, pcs, _ =>
+    if scriptRefused.contains (nameOf cmd) then
+      (if pcs.headD false then runScript w q c sel sha now st rest pcs.tail err else (st, err))
+    else
     let r := access q st { db := scriptCmdDb w (scriptDb w sel sha) cmd, sel := sel, conn := c, path := .script sha,
                            now := now, cmd := cmd, obs := none }
-    if isError r.2 then r else runScript w q c sel sha now r.1 rest r.2
+    if isError r.2 && !pcs.headD false then r else runScript w q c sel sha now r.1 rest pcs.tail r.2
 
 /-! ### Blocking pops (`handle_blpop` / `handle_brpop`, `notify_key_ready`, `wake_client`) -/
 
@@ -277,8 +281,8 @@ def afterSweep (q : Quirks) (st : State) (now db : Nat) (inExec : Bool) : State 
 /-- one command or script on behalf of connection `c`; `inExec` = re-dispatched by EXEC -/
 def dispatch (w : Switches) (q : Quirks) (st : State) (c now : Nat) (inExec : Bool) (r : Req) : State × Option Frame :=
   match r with
-  | .script sha cmds =>
-    let x := runScript w q c (st.conns c).db sha now st cmds nil
+  | .script sha cmds pcs =>
+    let x := runScript w q c (st.conns c).db sha now st cmds pcs nil
     (afterSweep q x.1 now (st.conns c).db inExec, some x.2)
   | .plain [] _ => (st, some err)
   | .plain (n :: args) obs =>
@@ -312,7 +316,7 @@ def queued : Frame := .simple [81, 85, 69, 85, 69, 68]
 
 def reqName : Req → String
   | .plain a _ => nameOf a
-  | .script _ _ => "EVAL"
+  | .script _ _ _ => "EVAL"
 
 /-- one request of connection `c` (WATCH, pub/sub, AUTH are not modelled here) -/
 def exec (w : Switches) (q : Quirks) (st : State) (now c : Nat) (r : Req) : State × Out :=
